@@ -241,3 +241,8 @@ MUTANTS = [
      'new': """            if(memcmp(chk->digest, tgt_chk->digest, chk->digest_size) == 0 &&
                tgt_chk->comp_length == chk->comp_length) {""", 'expect': None},
 ]
+
+
+# SESSION7 additions to the claim (clauses added in DESIGN section 12)
+CLAIM['technique'] += '; part-remaining invariant of the multipart data state; size pairs of the carried-over part header'
+CLAIM['text'] += ' C05-j: a pass through the data state forwards at least one byte and, when it uses the part up, also leaves the state. C05-k: the recorded length of the carried-over buffer never exceeds its allocation.'
